@@ -324,7 +324,7 @@ fn cmd_check(prop: &str, tier: &str) -> i32 {
         "coverage": {
             "evaluations": acc.runs,
             "distinct_nontrivial": distinct,
-            "rule": "one evaluation = one seeded simulated run (swarm-configured workload against the reference model through SimOS); non-trivial = at least one successful commit and more than 5 steps; distinct = distinct trace hashes over every API outcome of the run",
+            "rule": rule_text(engine),
             "samples": samples,
             "runs_per_hour": if wall > 0.0 { (acc.runs as f64 / wall * 3600.0) as u64 } else { 0 },
             "simulated_time": {"unit": "SimOS calls + API steps (jammdb has no clock)", "simos_calls": acc.sim_events, "api_steps": acc.steps, "commits": acc.commits},
@@ -373,6 +373,19 @@ fn cmd_check(prop: &str, tier: &str) -> i32 {
         return 1;
     }
     0
+}
+
+fn rule_text(engine: &str) -> &'static str {
+    match engine {
+        "crash" => "one evaluation = one seeded history whose commits are crashed: the crash images synthesised from it (process-kill prefixes, power-loss subsets, sector and word tears, second-level crashes) are counted in fault_kinds_fired.images; non-trivial = the history has at least one successful commit and more than 5 steps; distinct = distinct fingerprints of the history's API outcomes and SimOS events",
+        "fault" => "one evaluation = one seeded history re-executed once per (chosen commit, I/O call index, fault kind) plus sampled pairs; the individual fault injections are counted in fault_kinds_fired.fault_runs and per kind; non-trivial = the fault-free history has a successful commit; distinct = distinct history fingerprints",
+        "corrupt" => "one evaluation = one seeded history of n commits (n in 0..6) whose two header pages are damaged at every byte offset in five ways plus block damage; images counted in fault_kinds_fired.images; non-trivial = n >= 1; distinct = distinct history fingerprints",
+        "long" => "one evaluation = one long run (hundreds to thousands of transactions) of a steady-state workload; non-trivial = at least 20 commits; distinct = distinct sequences of (high-water mark, live pages) after every commit",
+        "cfg" => "one evaluation = one seeded history executed under a set of option combinations (counted in fault_kinds_fired.configs_run), each in its own child process; non-trivial = the history commits; distinct = distinct API transcripts",
+        "compat" => "one evaluation = one database written by the vendored pinned release and taken over by the current tree (contents, continuation, legacy headers, page-size mismatch, cross-version read-back, fresh-file conformance) plus one evaluation for the committed golden images; distinct = distinct (old contents, new contents) digests",
+        "shuttle" => "one evaluation = one execution of the scenario under one seeded schedule (random, PCT or bounded preemption); non-trivial = every execution (each runs at least one commit); distinct = distinct sequences of scheduling decisions",
+        _ => "one evaluation = one seeded simulated run (swarm-configured workload against the reference model through SimOS); non-trivial = at least one successful commit and more than 5 steps; distinct = distinct fingerprints over every API outcome and SimOS event of the run",
+    }
 }
 
 fn real_vs_stub() -> Value {
